@@ -17,46 +17,53 @@ NChunks == 16
 (* `tab' holds the tables of the case under exploration (AllocCheck!Build): built once, by the worker  *)
 (* that enters the case, constant afterwards.  It is a function of f, so the cfg hides it from the     *)
 (* fingerprint (VIEW View) and from error traces (ALIAS Shown).                                        *)
-VARIABLES chunk, f, pc, cur, holds, tab
-vars == <<chunk, f, pc, cur, holds, tab>>
-View == <<chunk, f, pc, cur, holds>>
-Shown == [chunk |-> chunk, f |-> f, pc |-> pc, cur |-> cur, holds |-> holds]
+\* `last' = the position executed by the step that led here (0 = none): the instruction whose
+\* definitions NoSharing has to look at (AllocCheck!NoShareStep)
+VARIABLES chunk, f, pc, last, cur, holds, tab
+vars == <<chunk, f, pc, last, cur, holds, tab>>
+View == <<chunk, f, pc, last, cur, holds>>
+Shown == [chunk |-> chunk, f |-> f, pc |-> pc, last |-> last, cur |-> cur, holds |-> holds]
 Empty == [r \in {} |-> 0]
 NoTab == [n |-> 0]
 
-Init == chunk = 0 /\ f = 0 /\ pc = 0 /\ cur = Empty /\ holds = Empty /\ tab = NoTab
-PickChunk == /\ chunk = 0 /\ chunk' \in 1..NChunks /\ UNCHANGED <<f, pc, cur, holds, tab>>
+Init == chunk = 0 /\ f = 0 /\ pc = 0 /\ last = 0 /\ cur = Empty /\ holds = Empty /\ tab = NoTab
+PickChunk == /\ chunk = 0 /\ chunk' \in 1..NChunks /\ UNCHANGED <<f, pc, last, cur, holds, tab>>
 PickCase  == /\ chunk > 0 /\ f = 0
              /\ f' \in {k \in 1..NCases : k % NChunks = chunk - 1}
              /\ tab' = Build(Input.cases[f'], Ovs[Input.cases[f'].arch])
-             /\ pc' = 1 /\ UNCHANGED <<chunk, cur, holds>>
+             /\ pc' = 1 /\ UNCHANGED <<chunk, last, cur, holds>>
 
 P == tab
 At == P.T[pc]
 Running == f > 0 /\ pc >= 1 /\ pc <= P.n
 \* a path is followed only as long as the property holds on it: one report per failing path prefix
-Healthy == /\ ReadsOK(P, pc, cur, holds) /\ NoShare(P, cur) /\ RemovedOK(P, pc) /\ InsertedOK(P, pc)
+Healthy == /\ ReadsOK(P, pc, cur, holds) /\ NoShareStep(P, last, cur) /\ RemovedOK(P, pc) /\ InsertedOK(P, pc)
 
-\* an instruction of both programs: reads are checked (invariant), definitions take effect
-Exec == /\ Running /\ Healthy /\ At.kind = "both"
+\* one step of the machine at an entry of the given kind; a path is followed only while the
+\* property holds on it (Healthy), so every failing path prefix is reported once
+At_(kind) == /\ Running /\ At.kind = kind /\ Healthy /\ last' = pc /\ UNCHANGED <<chunk, f, tab>>
+\* an instruction of both programs: reads are checked (Healthy / invariants), definitions take effect
+Exec == /\ At_("both")
         /\ \E j \in At.succ : \E s \in {ExecTo(P, pc, j, cur, holds)} :
               pc' = j /\ cur' = s.cur /\ holds' = s.holds
-        /\ UNCHANGED <<chunk, f, tab>>
 \* a coalesced move deleted by remove_redundant_moves: only the ground truth moves on
-RemovedMove == /\ Running /\ Healthy /\ At.kind = "spec"
+RemovedMove == /\ At_("spec")
                /\ \E j \in At.succ : \E s \in {RemovedTo(P, pc, j, cur, holds)} :
                      pc' = j /\ cur' = s.cur /\ holds' = s.holds
-               /\ UNCHANGED <<chunk, f, tab>>
 \* spill code inserted by rewrite_program: one load / store block, atomically
-SpillBlock == /\ Running /\ Healthy /\ At.kind = "impl" /\ At.blk # 0
+SpillBlock == /\ At_("impl") /\ At.blk # 0
               /\ \E s \in {BlockTo(P, pc, cur, holds)} :
                     pc' = pc + At.blkLen /\ cur' = s.cur /\ holds' = s.holds
-              /\ UNCHANGED <<chunk, f, tab>>
 Next == PickChunk \/ PickCase \/ Exec \/ RemovedMove \/ SpillBlock
+
+\* safety net against a case whose exploration explodes: the run stops generating states at the
+\* cap, the engine sees the cap was hit, splits the batch and finally counts the case as inconclusive
+CONSTANT MaxStates
+Budget == TLCGet("distinct") < MaxStates
 
 \* ---- the property ----
 ReadsSeeLatestDef == Running => ReadsOK(P, pc, cur, holds)
-NoSharing         == Running => NoShare(P, cur)
+NoSharing         == Running => NoShareStep(P, last, cur)
 CoalescedSameLoc  == Running => RemovedOK(P, pc)
 SpillCodeInBlocks == Running => InsertedOK(P, pc)
 \* ---- structural clauses (per case, evaluated when the case is entered) ----
@@ -67,4 +74,5 @@ JumpTargetsInList == AtStart => P.jumpsOK
 EveryNameLocated  == AtStart => P.located
 BlocksWellFormed  == AtStart => P.blocksOK
 RemovedExactly    == AtStart => P.removedOK
+RoundsChain       == AtStart => P.chainOK      \* the list changes only inside rewrite_program
 =============================================================================
